@@ -32,7 +32,7 @@
 (*   reset ids               new agent instance; ids = downlinks of the run  *)
 (*   open id kind ewns keep  the instruction that opens the downlink ran     *)
 (*   dlreq id | dlans id how(ok|refuse|fatal)                                *)
-(*   dlin id do(linked|synced|event|unlinked|fail|close|outfail) [v m k n]   *)
+(*   dlin id do(linked|synced|event|unlinked|fail|close|closein|outfail) ... *)
 (*   cb id cb ph(b|e) [v prev k map]     | lane lane m [k v]                 *)
 (*   dlset id v ok | dlmop id m k v ok | dlclose id linked                   *)
 (*   dlout id [v | m k v] | other (any other entry logged inside the agent)  *)
@@ -109,9 +109,13 @@ Removes(id, ks, m, lm) ==
 Closed(d) == IF d.keep /\ ~d.stopped THEN [d EXCEPT !.ls = "U", !.val = -1, !.map = EmptyMap]
                                      ELSE [d EXCEPT !.ls = "U", !.val = -1, !.map = EmptyMap, !.phase = "dead", !.inq = <<>>]
 \* the channel is gone: a kept downlink asks for a new one (a new series of attempts), any other is dropped
-Lost(d) == IF d.keep /\ ~d.stopped /\ ~d.orphan
+Lost(d, restart) == IF restart
              THEN [d EXCEPT !.ls = "U", !.val = -1, !.map = EmptyMap, !.phase = "asking", !.want = TRUE, !.left = Retries, !.inq = <<>>, !.excused = TRUE]
              ELSE [d EXCEPT !.ls = "U", !.val = -1, !.map = EmptyMap, !.phase = "dead", !.inq = <<>>, !.excused = TRUE]
+
+\* whether a downlink that lost its channel is restarted: a kept downlink that the agent has not stopped; one whose handle
+\* was dropped is restarted only if it has not noticed that yet (either may happen)
+Restarts(d) == IF d.keep /\ ~d.stopped THEN (IF d.orphan THEN {TRUE, FALSE} ELSE {TRUE}) ELSE {FALSE}
 
 Expect(id, d, n) ==
     CASE n.do = "linked" -> Pair(id, "linked")
@@ -141,7 +145,7 @@ Expect(id, d, n) ==
       [] n.do = "close" -> IF d.ls \in {"L", "S"} THEN Pair(id, "unlinked") ELSE <<>>
       [] n.do = "stop" -> IF d.ls \in {"L", "S"} THEN Pair(id, "unlinked") ELSE <<>>
 
-After(d, n) ==
+After(d, n, rs) ==
     CASE n.do = "linked" -> IF d.ls = "U" THEN [d EXCEPT !.ls = "L"] ELSE d
       [] n.do = "synced" -> [d EXCEPT !.ls = "S"]
       [] n.do = "event" /\ d.kind = "value" -> [d EXCEPT !.val = n.v]
@@ -154,17 +158,16 @@ After(d, n) ==
       \* an unlinked notification: a downlink that is not kept terminates; a kept one stays on its channel, unlinked
       [] n.do = "unlinked" -> Closed(d)
       \* a frame that cannot be decoded / the end of the input: the channel is lost
-      [] n.do = "fail" -> Lost(d)
-      [] n.do = "close" -> Lost(d)
+      [] n.do = "fail" -> Lost(d, rs)
+      [] n.do = "close" -> Lost(d, rs)
       \* stopped through the handle: never restarted
       [] n.do = "stop" -> [d EXCEPT !.ls = "U", !.val = -1, !.map = EmptyMap, !.phase = "dead", !.inq = <<>>]
 
 \* the agent takes the next notification delivered to downlink id
 Consume(id) ==
     /\ cur = 0 /\ D[id].phase = "run" /\ D[id].inq # <<>>
-    /\ LET d == D[id]  n == Head(d.inq)  x == Expect(id, d, n)
-           d2 == After([d EXCEPT !.inq = Tail(d.inq)], n) IN
-       /\ Upd(id, d2)
+    /\ LET d == D[id]  n == Head(d.inq)  x == Expect(id, d, n) IN
+       /\ \E rs \in Restarts(d) : Upd(id, After([d EXCEPT !.inq = Tail(d.inq)], n, rs))
        /\ exp' = x
        /\ cur' = IF x = <<>> THEN 0 ELSE id
     /\ UNCHANGED <<LM, stopping, kf>>
@@ -173,7 +176,7 @@ Consume(id) ==
 \* callback), drops any other (no callback)
 WFail(id) ==
     /\ cur = 0 /\ D[id].phase = "run" /\ D[id].obroken
-    /\ Upd(id, [Lost(D[id]) EXCEPT !.obroken = FALSE])
+    /\ \E rs \in Restarts(D[id]) : Upd(id, [Lost(D[id], rs) EXCEPT !.obroken = FALSE])
     /\ UNCHANGED <<cur, exp, LM, stopping, kf>>
 
 Matches(e, p) == \A f \in DOMAIN p : f \in DOMAIN e /\ e[f] = p[f]
@@ -218,6 +221,10 @@ Step(e) ==
        /\ LET d == D[e.id] IN
           Upd(e.id, IF d.phase # "run" \/ d.stopped THEN d                  \* (nobody is listening)
                     ELSE IF e.do = "outfail" THEN [d EXCEPT !.obroken = TRUE, !.excused = TRUE]
+                    \* (close: both channels go - the end of the input is queued behind what was delivered, a write may fail
+                    \* before it is seen; closein: only the input ends)
+                    ELSE IF e.do = "close" THEN [d EXCEPT !.obroken = TRUE, !.excused = TRUE, !.inq = Append(@, e)]
+                    ELSE IF e.do = "closein" THEN [d EXCEPT !.inq = Append(@, [e EXCEPT !.do = "close"])]
                     ELSE [d EXCEPT !.inq = Append(@, e)])
        /\ UNCHANGED <<cur, exp, LM, stopping, kf>>
     \/ /\ e.e = "dlclose" /\ e.id \in Ids
@@ -255,6 +262,7 @@ Step(e) ==
        /\ stopping \/ \A id \in Ids : LET d == D[id] IN
              /\ ~d.want                                                   \* H4: every request that was due has been made
              /\ (d.phase = "run" /\ ~d.obroken) => d.inq = <<>>       \* H1: everything delivered has been taken
+             /\ d.phase = "run" => \A x \in 1..Len(d.inq) : d.inq[x].do # "close"   \* H2: a closed channel has been noticed
              /\ (d.phase = "run" /\ ~d.excused) =>                      \* H5: an undisturbed downlink has written everything
                    /\ (d.kind = "value" => d.wpos = Len(d.wl))
                    /\ (d.kind = "map" => d.mgot = d.mwant)
